@@ -26,6 +26,8 @@ pub struct GenCfg {
     pub structured: bool,
     /// number of conjuncts in a bad-state condition
     pub bad_conj: usize,
+    /// give some nodes names that look like names patronus generates itself (`__n5`, `s0@0`, ...)
+    pub clash_names: bool,
 }
 
 impl GenCfg {
@@ -48,6 +50,7 @@ impl GenCfg {
             wide: rng.chance(1, 8),
             structured: rng.chance(1, 2),
             bad_conj: 1 + rng.usize_below(3),
+            clash_names: false,
         }
     }
 }
@@ -561,7 +564,20 @@ pub fn generate(rng: &mut Rng, cfg: &GenCfg) -> Sys {
         for n in 0..g.sys.nodes.len() {
             let leaf = matches!(g.sys.nodes[n].op, NOp::Input(_) | NOp::State(_));
             if !leaf && g.rng.chance(1, 4) {
-                let name = fancy_name(g.rng, &format!("n{n}"), cfg.quoted_names);
+                let name = if cfg.clash_names && g.rng.chance(1, 6) {
+                    // names that look like the ones patronus generates itself, or like another
+                    // signal's per-step symbol
+                    match g.rng.below(6) {
+                        0 => format!("__n{}", g.rng.below(12)),
+                        1 => "_bad".to_string(),
+                        2 => "_constraint_0".to_string(),
+                        3 => "_input_0".to_string(),
+                        4 => "s0@0".to_string(),
+                        _ => "__pdr_act_0".to_string(),
+                    }
+                } else {
+                    fancy_name(g.rng, &format!("n{n}"), cfg.quoted_names)
+                };
                 g.sys.node_names.insert(n, name);
             }
         }
@@ -602,4 +618,22 @@ pub fn demote_orphan_states(sys: &mut Sys) {
         }
     }
     sys.states = kept;
+}
+
+/// true if some name in the system looks like a name patronus' encodings generate themselves
+pub fn has_clash_names(sys: &Sys) -> bool {
+    let clash = |n: &str| -> bool {
+        n.starts_with("__n")
+            || n.starts_with("__pdr_act_")
+            || n.starts_with("_bad")
+            || n.starts_with("_constraint")
+            || n.starts_with("_input")
+            || n.starts_with("_state")
+            || n.starts_with("_output")
+            || n.rsplit_once('@').map(|(_, k)| !k.is_empty() && k.bytes().all(|c| c.is_ascii_digit())).unwrap_or(false)
+    };
+    sys.node_names.values().any(|n| clash(n))
+        || sys.states.iter().any(|s| clash(&s.name))
+        || sys.inputs.iter().any(|s| clash(&s.0))
+        || sys.outputs.iter().any(|s| clash(&s.0))
 }
